@@ -620,3 +620,163 @@ Proof.
   intros Hn Hf evt vals ce out. unfold out, ce, evt, vals.
   rewrite (gen_index_eq isg v0 l N Hn Hf). apply afinal_rule; assumption.
 Qed.
+(* ====================================================================================
+   Part B.  Repeat removal and the CategoricalData look-up.
+   ==================================================================================== *)
+Lemma lookupd_cons p v d t k : lookupd p ((v, d) :: t) k = if d <=? k then lookupd v t k else lookupd p t k.
+Proof. unfold lookupd. simpl. destruct (d <=? k); [|reflexivity]. simpl map. apply last_cons. Qed.
+
+Lemma lookupd_above p t k : Forall (fun y => k < y) (map snd t) -> lookupd p t k = p.
+Proof.
+  induction t as [|[v d] t IH]; intro H; [reflexivity|]. simpl in H. inversion H; subst.
+  rewrite lookupd_cons. destruct (d <=? k) eqn:E; [lia|]. apply IH. assumption.
+Qed.
+
+Lemma cf_Forall (P : Z -> Prop) t : forall prev, Forall P (map snd t) -> Forall P (map snd (changes_from prev t)).
+Proof.
+  induction t as [|[v d] t IH]; intros prev H; [constructor|]. simpl in *. inversion H; subst.
+  destruct (v =? prev); [apply IH; assumption|]. simpl. constructor; [assumption|apply IH; assumption].
+Qed.
+
+Lemma cf_ssorted t : forall prev, ssorted (map snd t) -> ssorted (map snd (changes_from prev t)).
+Proof.
+  induction t as [|[v d] t IH]; intros prev H; [exact Logic.I|]. simpl in *. destruct H as [Hf Hs].
+  destruct (v =? prev); [apply IH; assumption|]. simpl. split; [apply cf_Forall; assumption|apply IH; assumption].
+Qed.
+
+Lemma Forall_gt_trans (l : list Z) d k : Forall (fun y => d < y) l -> k < d -> Forall (fun y => k < y) l.
+Proof. intros H Hk. eapply Forall_impl; [|exact H]. simpl. intros. lia. Qed.
+
+Lemma cf_lookup t : forall prev k, ssorted (map snd t) ->
+  lookupd prev (changes_from prev t) k = lookupd prev t k.
+Proof.
+  induction t as [|[v d] t IH]; intros prev k H; [reflexivity|]. simpl in *. destruct H as [Hf Hs].
+  rewrite lookupd_cons. destruct (v =? prev) eqn:E.
+  - assert (v = prev) by lia. subst v. rewrite IH by assumption. destruct (d <=? k); reflexivity.
+  - rewrite lookupd_cons. destruct (d <=? k) eqn:Ek; [apply IH; assumption|].
+    rewrite !lookupd_above; auto.
+    + eapply Forall_gt_trans; [exact Hf|lia].
+    + apply cf_Forall. eapply Forall_gt_trans; [exact Hf|lia].
+Qed.
+
+Lemma rr_lookup ps k : ssorted (map snd ps) -> lookupd 0 (remove_repeats ps) k = lookupd 0 ps k.
+Proof.
+  destruct ps as [|[v d] t]; [reflexivity|]. simpl. intros [Hf Hs].
+  rewrite !lookupd_cons. destruct (d <=? k) eqn:E; [apply cf_lookup; assumption|].
+  rewrite !lookupd_above; auto.
+  - eapply Forall_gt_trans; [exact Hf|lia].
+  - apply cf_Forall. eapply Forall_gt_trans; [exact Hf|lia].
+Qed.
+
+Lemma rr_ssorted ps : ssorted (map snd ps) -> ssorted (map snd (remove_repeats ps)).
+Proof.
+  destruct ps as [|[v d] t]; [auto|]. simpl. intros [Hf Hs]. split; [apply cf_Forall|apply cf_ssorted]; assumption.
+Qed.
+Lemma rr_Forall (P : Z -> Prop) ps : Forall P (map snd ps) -> Forall P (map snd (remove_repeats ps)).
+Proof.
+  destruct ps as [|[v d] t]; [auto|]. simpl. intro H. inversion H; subst. constructor; [assumption|apply cf_Forall; assumption].
+Qed.
+Lemma rr_head ps v t : ps = (v, 0) :: t -> exists t', remove_repeats ps = (v, 0) :: t'.
+Proof. intros ->. simpl. eauto. Qed.
+
+(* no two consecutive values are equal *)
+Fixpoint norep_from (prev : Z) (l : list Z) : Prop :=
+  match l with [] => True | v :: t => v <> prev /\ norep_from v t end.
+Definition norep (l : list Z) : Prop := match l with [] => True | v :: t => norep_from v t end.
+
+Lemma cf_norep t : forall prev, norep_from prev (map fst (changes_from prev t)).
+Proof.
+  induction t as [|[v d] t IH]; intro prev; [exact Logic.I|]. simpl.
+  destruct (v =? prev) eqn:E.
+  - assert (v = prev) by lia. subst. apply IH.
+  - simpl. split; [lia|apply IH].
+Qed.
+Lemma rr_norep ps : norep (map fst (remove_repeats ps)).
+Proof. destruct ps as [|[v d] t]; [exact Logic.I|]. simpl. apply cf_norep. Qed.
+
+(* ---------- unique_in_order / indices ---------- *)
+Lemma memZ_In v l : memZ v l = true <-> In v l.
+Proof.
+  unfold memZ. rewrite existsb_exists. split.
+  - intros [x [Hx He]]. assert (v = x) by lia. subst. exact Hx.
+  - intro H. exists v. split; [exact H|lia].
+Qed.
+
+Lemma uio_acc l : forall acc v, In v acc \/ In v l ->
+  In v (fold_left (fun acc v => if memZ v acc then acc else acc ++ [v]) l acc).
+Proof.
+  induction l as [|x l IH]; intros acc v H; simpl.
+  - destruct H as [H|[]]. exact H.
+  - apply IH. destruct H as [H|[H|H]].
+    + left. destruct (memZ x acc); [exact H|apply in_or_app; left; exact H].
+    + subst x. left. destruct (memZ v acc) eqn:E; [apply memZ_In; exact E|apply in_or_app; right; left; reflexivity].
+    + right. exact H.
+Qed.
+Lemma uio_In l v : In v l -> In v (unique_in_order l).
+Proof. intro H. apply uio_acc. right. exact H. Qed.
+
+Lemma index_of_nth v u : In v u -> exists j, index_of v u = Some j /\ nth j u 0 = v.
+Proof.
+  induction u as [|x u IH]; intro H; [destruct H|]. simpl.
+  destruct (x =? v) eqn:E.
+  - exists O. split; [reflexivity|simpl; lia].
+  - destruct H as [H|H]; [lia|]. destruct (IH H) as [j [Hj Hn]]. exists (S j). rewrite Hj. split; [reflexivity|exact Hn].
+Qed.
+
+Lemma cat_value vs i : (i < length vs)%nat ->
+  let u := unique_in_order vs in
+  nth (nth i (map (fun v => match index_of v u with Some i => i | None => O end) vs) O) u 0 = nth i vs 0.
+Proof.
+  intros Hi u.
+  rewrite (nth_map_lt (fun v => match index_of v u with Some i => i | None => O end) vs i 0 O Hi).
+  destruct (index_of_nth (nth i vs 0) u (uio_In vs _ (nth_In vs 0 Hi))) as [j [Hj Hn]].
+  rewrite Hj. exact Hn.
+Qed.
+
+(* ---------- data[:] ---------- *)
+Lemma ss_right_app_big a N k : k < N -> ss_right (a ++ [N]) k = ss_right a k.
+Proof.
+  intro H. induction a as [|x a IH]; simpl.
+  - destruct (N <=? k) eqn:E; [lia|reflexivity].
+  - destruct (x <=? k); [rewrite IH; reflexivity|reflexivity].
+Qed.
+Lemma ss_right_le a k : (ss_right a k <= length a)%nat.
+Proof. induction a as [|x a IH]; simpl; [lia|]. destruct (x <=? k); simpl; lia. Qed.
+
+Lemma lookup_ss ps : forall dflt k, ssorted (map snd ps) ->
+  lookupd dflt ps k = match ss_right (map snd ps) k with O => dflt | S j => nth j (map fst ps) 0 end.
+Proof.
+  induction ps as [|[v d] t IH]; intros dflt k H; [reflexivity|]. simpl in H. destruct H as [Hf Hs].
+  rewrite lookupd_cons. simpl. destruct (d <=? k) eqn:E.
+  - rewrite (IH v k Hs). destruct (ss_right (map snd t) k); reflexivity.
+  - apply lookupd_above. eapply Forall_gt_trans; [exact Hf|lia].
+Qed.
+
+Lemma res_all_map {A} (f : nat -> res A) (g : nat -> A) n : forall s,
+  (forall i, (s <= i < s + n)%nat -> f i = Ok (g i)) -> res_all (map f (seq s n)) = Ok (map g (seq s n)).
+Proof.
+  induction n as [|n IH]; intros s H; [reflexivity|]. simpl. rewrite (H s) by lia.
+  rewrite (IH (S s)); [reflexivity|]. intros i Hi. apply H. lia.
+Qed.
+
+Definition zrange (N : Z) : list Z := map Z.of_nat (seq 0 (Z.to_nat N)).
+
+Lemma cat_all_lookup ps N v0 t : ps = (v0, 0) :: t -> ssorted (map snd ps) ->
+  Forall (fun d => 0 <= d < N) (map snd ps) ->
+  cat_all (cat_of (map fst ps) (map snd ps ++ [N])) = Ok (map (lookupd 0 ps) (zrange N)).
+Proof.
+  intros Hps Hs Hf. unfold cat_all. cbn [cevents cat_of].
+  rewrite last_app_single. unfold zrange. rewrite map_map.
+  assert (HN : 0 < N). { rewrite Hps in Hf. simpl in Hf. inversion Hf; subst. lia. }
+  apply res_all_map. intros i Hi. unfold cat_lookup. cbn [cevents indices unique_values cat_of].
+  assert (Hk : 0 <= Z.of_nat i < N) by lia.
+  rewrite ss_right_app_big by lia. rewrite map_length.
+  pose proof (ss_right_le (map snd ps) (Z.of_nat i)) as Hle. rewrite map_length in Hle.
+  pose proof (lookup_ss ps 0 (Z.of_nat i) Hs) as Hl.
+  destruct (ss_right (map snd ps) (Z.of_nat i)) as [|j] eqn:Ej.
+  - exfalso. rewrite Hps in Ej. simpl in Ej. destruct (0 <=? Z.of_nat i) eqn:E; [discriminate|lia].
+  - replace (Z.of_nat (S j) - 1) with (Z.of_nat j) by lia.
+    destruct ((Z.of_nat j <? 0) || (Z.of_nat (length (map fst ps)) <=? Z.of_nat j)) eqn:E.
+    + rewrite map_length in E. lia.
+    + rewrite Nat2Z.id. rewrite cat_value by (rewrite map_length; lia). rewrite Hl. reflexivity.
+Qed.
